@@ -336,3 +336,40 @@ def install_clock(*modules) -> None:
     for m in modules:
         if getattr(m, "datetime", None) is _RealDatetime:
             m.datetime = SimDatetime
+
+
+class SimTimeModule:
+    """Stand-in for the ``time`` module as seen by one dependency (``gzip`` stamps its header
+    with ``time.time()``): a scripted epoch that advances by one second per read.  Everything
+    else is forwarded to the real module."""
+
+    def __init__(self, start: float = 1_700_000_000.0):
+        self.start = start
+        self.reads = 0
+        self.ctx = None
+
+    def reset(self, start: float | None = None):
+        if start is not None:
+            self.start = start
+        self.reads = 0
+
+    def time(self) -> float:
+        t = self.start + self.reads
+        self.reads += 1
+        if self.ctx is not None:
+            self.ctx.log("clock", "epoch", t)
+        return t
+
+    def __getattr__(self, name):
+        import time as _time
+
+        return getattr(_time, name)
+
+
+GZIP_TIME = SimTimeModule()
+
+
+def install_gzip_clock() -> None:
+    import gzip
+
+    gzip.time = GZIP_TIME
